@@ -865,8 +865,12 @@ func (p *Prog) counterLoopBound(obj types.Object) ast.Expr {
 						}
 					case *ast.UnaryExpr:
 						if x.Op == token.AND {
-							if lid := rootIdent(x.X); lid != nil && (info.Uses[lid] == iv || info.Uses[lid] == ro) {
-								clean = false
+							// the address of an element cannot change the length; the address of the
+							// counter or of the collection itself could
+							if _, isElem := ast.Unparen(x.X).(*ast.IndexExpr); !isElem {
+								if lid := rootIdent(x.X); lid != nil && (info.Uses[lid] == iv || info.Uses[lid] == ro) {
+									clean = false
+								}
 							}
 						}
 					}
